@@ -1,0 +1,14 @@
+//go:build verif
+
+package round
+
+// Verification hook of the round-protocol trace family (/verif, family "roundtrace").
+// Build tag `verif` only; add-only.
+
+// VerifRTHoldMutex write-locks the round's mutex and returns the function that unlocks it: the harness
+// plays a goroutine that keeps the round locked for a moment (a legal schedule), so that the order of two
+// racing goroutines of the node under test no longer depends on the scheduler.
+func (r *Round) VerifRTHoldMutex() (release func()) {
+	r.mutex.Lock()
+	return r.mutex.Unlock
+}
